@@ -157,6 +157,19 @@ func registryText() string {
 	return sb.String()
 }
 
+// warmRegistryText: the baseline is taken after ONE name has gone through the list, the known-test and the
+// constructor, so that a registry built lazily on first use (which modifies nothing an observer could have seen before)
+// is complete — and before any other name has been looked up, so that a per-entry write-back on first lookup still shows.
+func warmRegistryText() string {
+	if n := otp.ListSuites(); len(n) > 0 {
+		sortStrings(n)
+		otp.IsKnownSuite(n[0])
+		otp.NewRawSuite(n[0])
+		otp.SuiteConfigFromRaws(n[0])
+	}
+	return registryText()
+}
+
 func snapRegistry() regSnap {
 	if inChild {
 		return regSnap{}
@@ -171,7 +184,7 @@ func snapRegistry() regSnap {
 }
 
 var (
-	baseRegistryText = registryText() // taken before any accessor has run: initialised ahead of baseRegistry
+	baseRegistryText = warmRegistryText() // initialised ahead of baseRegistry
 	baseRegistry     = snapRegistry()
 	baseHOTP     = *otp.DefaultHOTPParam
 	baseTOTP     = *otp.DefaultTOTPParam
